@@ -53,7 +53,7 @@ theorem project_lagrange (J : Matrix c n K) (N : Matrix n n K) (Ginv : Matrix c 
 /-- Multiples of the constraint normals are annihilated. -/
 theorem project_range_zero (J : Matrix c n K) (N : Matrix n n K) (Ginv : Matrix c c K)
     (hG : J * N * Jᵀ * Ginv = 1) (lam : c → K) : project J N Ginv (Jᵀ *ᵥ lam) = 0 := by
-  have hG' : Ginv * (J * N * Jᵀ) = 1 := (Matrix.mul_eq_one_comm).mp hG
+  have hG' : Ginv * (J * N * Jᵀ) = 1 := mul_eq_one_comm.mp hG
   unfold project
   have h : Ginv *ᵥ (J *ᵥ (N *ᵥ (Jᵀ *ᵥ lam))) = (Ginv * (J * N * Jᵀ)) *ᵥ lam := by
     simp only [Matrix.mulVec_mulVec, Matrix.mul_assoc]
@@ -66,13 +66,11 @@ theorem project_eq_mulVec [DecidableEq n] (J : Matrix c n K) (N : Matrix n n K)
   rw [Matrix.sub_mulVec, Matrix.one_mulVec]
   simp only [Matrix.mulVec_mulVec, Matrix.mul_assoc]
 
-example : (!![1, 0; 0, 1] : Matrix (Fin 2) (Fin 2) ℚ) * 1 = 1 := by simp
-
 /-- non-vacuity: a sphere-type normal `J = (3 4)`, metric inverse `diag(1, 1/2)`, `G = 17`. -/
-example : (!![3, 4] : Matrix (Fin 1) (Fin 2) ℚ) * !![1, 0; 0, 1/2] * (!![3, 4] : Matrix (Fin 1) (Fin 2) ℚ)ᵀ
-    * !![1/17] = 1 := by
+example : (!![3, 4] : Matrix (Fin 1) (Fin 2) ℚ) * (!![1, 0; 0, 1/2] : Matrix (Fin 2) (Fin 2) ℚ)
+    * (!![3, 4] : Matrix (Fin 1) (Fin 2) ℚ)ᵀ * (!![1/17] : Matrix (Fin 1) (Fin 1) ℚ) = 1 := by
   ext i j; fin_cases i; fin_cases j
-  simp [Matrix.mul_apply, Fin.sum_univ_succ]; norm_num
+  simp [Matrix.mul_apply, Fin.sum_univ_succ, Matrix.vecMul, dotProduct, Matrix.vecHead, Matrix.vecTail]; norm_num
 
 end Project
 
@@ -133,9 +131,10 @@ private theorem qnLoop_post (O : Oracles K n c) (T : Tol K) (Jprev : Mat K c n) 
       split_ifs at h with h1 h2
       · cases h
         exact ⟨⟨cv, hc, h2.1⟩, hinv, le_refl _, by omega⟩
-      · have := ih (i + 1) _ _
-          (posInv_step hinv 1 _ (deltaMu Jprev Ginv cv) (deltaMu_fn _ _ _) _ (by simp)) (by simpa using h)
-        obtain ⟨a, b, c1, c2⟩ := this
+      · have key := posInv_step hinv 1 _ (deltaMu Jprev Ginv cv) (deltaMu_fn _ _ _)
+          (vec (pos.fn - (vec (Φqp.fn *ᵥ (deltaMu Jprev Ginv cv).fn)).fn)) (by simp)
+        rw [one_smul] at key
+        obtain ⟨a, b, c1, c2⟩ := ih (i + 1) _ _ key h
         exact ⟨a, b, by omega, by omega⟩
 
 private theorem newtonLoop_post (O : Oracles K n c) (T : Tol K) (Jprev : Mat K c n) (Φqp : Mat K n n)
@@ -163,9 +162,10 @@ private theorem newtonLoop_post (O : Oracles K n c) (T : Tol K) (Jprev : Mat K c
       split_ifs at h with h1 h2
       · cases h
         exact ⟨⟨cv, hc, h2.1⟩, hinv, le_refl _, by omega⟩
-      · have := ih (i + 1) _ _
-          (posInv_step hinv 1 _ (deltaMu Jprev Ginv cv) (deltaMu_fn _ _ _) _ (by simp)) (by simpa using h)
-        obtain ⟨a, b, c1, c2⟩ := this
+      · have key := posInv_step hinv 1 _ (deltaMu Jprev Ginv cv) (deltaMu_fn _ _ _)
+          (vec (pos.fn - (vec (Φqp.fn *ᵥ (deltaMu Jprev Ginv cv).fn)).fn)) (by simp)
+        rw [one_smul] at key
+        obtain ⟨a, b, c1, c2⟩ := ih (i + 1) _ _ key h
         exact ⟨a, b, by omega, by omega⟩
 
 /-- The inner backtracking loop always leaves the position at `pos_curr + step_size * delta_pos`
@@ -263,7 +263,7 @@ theorem quasi_newton_post (O : Oracles K n c) (T : Tol K) (maxIters : Nat) (t : 
     obtain ⟨hl, hm⟩ := finish_ok h
     obtain ⟨hc, ⟨hp, hr⟩, _, hlt⟩ :=
       qnLoop_post O T Jprev Φqp Ginv pos pos' mu i maxIters 0 pos (vec 0) (posInv_init _ _ _) hl
-    exact ⟨⟨hc, Jprev, Φqp, Φpp, rfl, rfl, hp, hm, hr⟩, by omega⟩
+    exact ⟨⟨hc, Jprev, Φqp, Φpp, hj, hf, hp, hm, hr⟩, by omega⟩
 
 /-- **Newton solver.** Same post-condition. -/
 theorem newton_post (O : Oracles K n c) (T : Tol K) (maxIters : Nat) (t : K)
@@ -282,7 +282,7 @@ theorem newton_post (O : Oracles K n c) (T : Tol K) (maxIters : Nat) (t : K)
     obtain ⟨hl, hm⟩ := finish_ok h
     obtain ⟨hc, ⟨hp, hr⟩, _, hlt⟩ :=
       newtonLoop_post O T Jprev Φqp pos pos' mu i maxIters 0 pos (vec 0) (posInv_init _ _ _) hl
-    exact ⟨⟨hc, Jprev, Φqp, Φpp, rfl, rfl, hp, hm, hr⟩, by omega⟩
+    exact ⟨⟨hc, Jprev, Φqp, Φpp, hj, hf, hp, hm, hr⟩, by omega⟩
 
 /-- **Newton solver with line search** (current tree, with the `for … else` repair): the full
 post-condition holds for every `max_line_search_iters`, with no assumption that the inner
@@ -304,7 +304,7 @@ theorem line_search_post (O : Oracles K n c) (T : Tol K) (maxIters maxLs : Nat) 
     obtain ⟨hc, ⟨hp, hr⟩, _, hlt⟩ :=
       lsLoop_post O T maxLs Jprev Φqp pos pos' mu i maxIters 0 pos (vec 0) (vec 0)
         (posInv_init _ _ _) hl
-    exact ⟨⟨hc, Jprev, Φqp, Φpp, rfl, rfl, hp, hm, hr⟩, by omega⟩
+    exact ⟨⟨hc, Jprev, Φqp, Φpp, hj, hf, hp, hm, hr⟩, by omega⟩
 
 /-- All three solvers. -/
 theorem solve_post (kind : SolverKind) (O : Oracles K n c) (T : Tol K) (maxIters maxLs : Nat) (t : K)
@@ -315,6 +315,351 @@ theorem solve_post (kind : SolverKind) (O : Oracles K n c) (T : Tol K) (maxIters
   · exact quasi_newton_post O T maxIters t pos mom posPrev pos' mom' mu i h
   · exact newton_post O T maxIters t pos mom posPrev pos' mom' mu i h
   · exact line_search_post O T maxIters maxLs t pos mom posPrev pos' mom' mu i h
+
+
+/-! ### failure behaviour -/
+
+private theorem finish_total {maxIters : Nat} (hmax : 0 < maxIters) (t : K) (mom : Vec K n)
+    (Φpp : Mat K n n) (l : LoopOut K n) :
+    (∃ pos' mom' mu i, finish maxIters t mom Φpp l = .ok pos' mom' mu i) ∨
+      (∃ r i p, finish maxIters t mom Φpp l = .convergenceError r i p) := by
+  cases l with
+  | converged p m j => exact Or.inl ⟨_, _, _, _, rfl⟩
+  | failed r j p m =>
+    right
+    cases r
+    · exact ⟨_, _, _, rfl⟩
+    · exact ⟨_, _, _, rfl⟩
+    · exact ⟨.maxIters, j, p, by simp [finish, Nat.ne_of_gt hmax]⟩
+
+/-- **Faults are contained, fuel exhaustion is an error.** With `max_iters ≥ 1`, whatever the
+oracles do (any `ValueError`/`LinAlgError` at any call, divergence, no convergence within
+the fuel), a solver either returns normally — and then `solve_post` applies — or raises
+`ConvergenceError`.  (For `max_iters = 0` the Python code raises `UnboundLocalError`, see
+`solve_zero_iters`.) -/
+theorem solve_ok_or_convergenceError (kind : SolverKind) (O : Oracles K n c) (T : Tol K)
+    (maxIters maxLs : Nat) (hmax : 0 < maxIters) (t : K) (pos mom posPrev : Vec K n) :
+    (∃ pos' mom' mu i, solve kind O T maxIters maxLs t pos mom posPrev = .ok pos' mom' mu i) ∨
+      (∃ r i p, solve kind O T maxIters maxLs t pos mom posPrev = .convergenceError r i p) := by
+  cases kind <;> simp only [solve, solveQuasiNewton, solveNewton, solveNewtonLineSearch]
+  · cases hj : O.jacob posPrev with
+    | error e => exact Or.inr ⟨_, _, _, rfl⟩
+    | ok Jprev =>
+    cases hf : O.flowD posPrev |t| with
+    | error e => exact Or.inr ⟨_, _, _, rfl⟩
+    | ok Φ =>
+    obtain ⟨Φqp, Φpp⟩ := Φ
+    cases hi : O.inv (innerProduct Jprev Φqp Jprev) with
+    | error e => simp only [hi]; exact Or.inr ⟨_, _, _, rfl⟩
+    | ok Ginv => simp only [hi]; exact finish_total hmax _ _ _ _
+  · cases hj : O.jacob posPrev with
+    | error e => exact Or.inr ⟨_, _, _, rfl⟩
+    | ok Jprev =>
+    cases hf : O.flowD posPrev |t| with
+    | error e => exact Or.inr ⟨_, _, _, rfl⟩
+    | ok Φ => exact finish_total hmax _ _ _ _
+  · cases hj : O.jacob posPrev with
+    | error e => exact Or.inr ⟨_, _, _, rfl⟩
+    | ok Jprev =>
+    cases hf : O.flowD posPrev |t| with
+    | error e => exact Or.inr ⟨_, _, _, rfl⟩
+    | ok Φ => exact finish_total hmax _ _ _ _
+
+/-- A fault while evaluating the constraint Jacobian at the previous state (before the first
+iteration) is reported as `ConvergenceError` by every solver. -/
+theorem solve_setup_fault (kind : SolverKind) (O : Oracles K n c) (T : Tol K)
+    (maxIters maxLs : Nat) (t : K) (pos mom posPrev : Vec K n) (e : Fault)
+    (h : O.jacob posPrev = .error e) :
+    solve kind O T maxIters maxLs t pos mom posPrev = .convergenceError .fault 0 pos := by
+  cases kind <;> simp [solve, solveQuasiNewton, solveNewton, solveNewtonLineSearch, h]
+
+private theorem qnLoop_maxIters (O : Oracles K n c) (T : Tol K) (Jprev : Mat K c n) (Φqp : Mat K n n)
+    (Ginv : Mat K c c) (p m : Vec K n) (i' : Nat) :
+    ∀ (fuel i : Nat) (pos mu : Vec K n),
+      qnLoop O T Jprev Φqp Ginv fuel i pos mu = .failed .maxIters i' p m → i' = i + fuel := by
+  intro fuel
+  induction fuel with
+  | zero => intro i pos mu h; simp only [qnLoop, LoopOut.failed.injEq] at h; omega
+  | succ fuel ih =>
+    intro i pos mu h
+    unfold qnLoop at h
+    cases hc : O.constr pos with
+    | error e => simp [hc] at h
+    | ok cv =>
+      simp only [hc] at h
+      split_ifs at h with h1 h2
+      · simp at h
+      · have := ih _ _ _ h; omega
+
+private theorem newtonLoop_maxIters (O : Oracles K n c) (T : Tol K) (Jprev : Mat K c n) (Φqp : Mat K n n)
+    (p m : Vec K n) (i' : Nat) :
+    ∀ (fuel i : Nat) (pos mu : Vec K n),
+      newtonLoop O T Jprev Φqp fuel i pos mu = .failed .maxIters i' p m → i' = i + fuel := by
+  intro fuel
+  induction fuel with
+  | zero => intro i pos mu h; simp only [newtonLoop, LoopOut.failed.injEq] at h; omega
+  | succ fuel ih =>
+    intro i pos mu h
+    unfold newtonLoop at h
+    cases hj : O.jacob pos with
+    | error e => simp [hj] at h
+    | ok J =>
+    cases hc : O.constr pos with
+    | error e => simp [hj, hc] at h
+    | ok cv =>
+    cases hi : O.inv (innerProduct J Φqp Jprev) with
+    | error e => simp [hj, hc, hi] at h
+    | ok Ginv =>
+      simp only [hj, hc, hi] at h
+      split_ifs at h with h1 h2
+      · simp at h
+      · have := ih _ _ _ h; omega
+
+private theorem lsLoop_maxIters (O : Oracles K n c) (T : Tol K) (maxLs : Nat) (Jprev : Mat K c n)
+    (Φqp : Mat K n n) (p m : Vec K n) (i' : Nat) :
+    ∀ (fuel i : Nat) (pos mu last : Vec K n),
+      lsLoop O T maxLs Jprev Φqp fuel i pos mu last = .failed .maxIters i' p m → i' = i + fuel := by
+  intro fuel
+  induction fuel with
+  | zero => intro i pos mu last h; simp only [lsLoop, LoopOut.failed.injEq] at h; omega
+  | succ fuel ih =>
+    intro i pos mu last h
+    unfold lsLoop at h
+    cases hj : O.jacob pos with
+    | error e => simp [hj] at h
+    | ok J =>
+    cases hc : O.constr pos with
+    | error e => simp [hj, hc] at h
+    | ok cv =>
+      simp only [hj, hc] at h
+      split_ifs at h with h1 h2
+      · simp at h
+      · cases hi : O.inv (innerProduct J Φqp Jprev) with
+        | error e => simp [hi] at h
+        | ok Ginv =>
+          simp only [hi] at h
+          cases hl : lineSearch O (O.normC cv) pos
+              (vec (-(Φqp.fn *ᵥ (deltaMu Jprev Ginv cv).fn))) maxLs 1 with
+          | error e => simp [hl] at h
+          | ok r =>
+            obtain ⟨pos1, α⟩ := r
+            simp only [hl] at h
+            have := ih _ _ _ _ h; omega
+
+private theorem finish_maxIters {maxIters : Nat} {t : K} {mom : Vec K n} {Φpp : Mat K n n}
+    {l : LoopOut K n} {p : Vec K n} {i : Nat}
+    (h : finish maxIters t mom Φpp l = .convergenceError .maxIters i p) :
+    ∃ m, l = .failed .maxIters i p m := by
+  cases l with
+  | converged p m j => simp [finish] at h
+  | failed r j p m =>
+    cases r <;> simp [finish] at h
+    split_ifs at h
+    simp only [Outcome.convergenceError.injEq, true_and] at h
+    obtain ⟨rfl, rfl⟩ := h
+    exact ⟨m, rfl⟩
+
+/-- "Did not converge in `max_iters` iterations" is raised exactly after all `max_iters`
+iterations were used. -/
+theorem solve_maxIters_exhausted (kind : SolverKind) (O : Oracles K n c) (T : Tol K)
+    (maxIters maxLs : Nat) (t : K) (pos mom posPrev p : Vec K n) (i : Nat)
+    (h : solve kind O T maxIters maxLs t pos mom posPrev = .convergenceError .maxIters i p) :
+    i = maxIters := by
+  cases kind <;> simp only [solve, solveQuasiNewton, solveNewton, solveNewtonLineSearch] at h
+  · cases hj : O.jacob posPrev with
+    | error e => simp [hj] at h
+    | ok Jprev =>
+    cases hf : O.flowD posPrev |t| with
+    | error e => simp [hj, hf] at h
+    | ok Φ =>
+    cases hi : O.inv (innerProduct Jprev Φ.1 Jprev) with
+    | error e => simp [hj, hf, hi] at h
+    | ok Ginv =>
+      simp only [hj, hf, hi] at h
+      obtain ⟨m, hm⟩ := finish_maxIters h
+      simpa using qnLoop_maxIters O T _ _ _ _ _ _ _ _ _ _ hm
+  · cases hj : O.jacob posPrev with
+    | error e => simp [hj] at h
+    | ok Jprev =>
+    cases hf : O.flowD posPrev |t| with
+    | error e => simp [hj, hf] at h
+    | ok Φ =>
+      simp only [hj, hf] at h
+      obtain ⟨m, hm⟩ := finish_maxIters h
+      simpa using newtonLoop_maxIters O T _ _ _ _ _ _ _ _ _ hm
+  · cases hj : O.jacob posPrev with
+    | error e => simp [hj] at h
+    | ok Jprev =>
+    cases hf : O.flowD posPrev |t| with
+    | error e => simp [hj, hf] at h
+    | ok Φ =>
+      simp only [hj, hf] at h
+      obtain ⟨m, hm⟩ := finish_maxIters h
+      simpa using lsLoop_maxIters O T _ _ _ _ _ _ _ _ _ _ _ hm
+
+/-- The code as it is: with `max_iters = 0` (and a fault-free set-up) the solvers do not raise
+`ConvergenceError` but `UnboundLocalError` (the final message formats the unbound `error`). -/
+theorem solve_zero_iters (O : Oracles K n c) (T : Tol K) (maxLs : Nat) (t : K)
+    (pos mom posPrev : Vec K n) (Jprev : Mat K c n) (Φ : Mat K n n × Mat K n n)
+    (hj : O.jacob posPrev = .ok Jprev) (hf : O.flowD posPrev |t| = .ok Φ) :
+    solve .newton O T 0 maxLs t pos mom posPrev = .unboundLocal ∧
+    solve .newtonLineSearch O T 0 maxLs t pos mom posPrev = .unboundLocal := by
+  simp [solve, solveNewton, solveNewtonLineSearch, hj, hf, newtonLoop, lsLoop, finish]
+
+/-! ### Euclidean systems: the classical RATTLE relation -/
+
+/-- For `ConstrainedEuclideanMetricSystem` (`dh2_flow_dmom = (|t|·M⁻¹, I)`) the Lagrange form
+says: the position correction is `t · M⁻¹ ·` the momentum correction. -/
+theorem euclidean_lagrange_identity [IsStrictOrderedRing K] (N : Matrix (Fin n) (Fin n) K) (t : K)
+    (Φqp Φpp : Mat K n n) (hq : Φqp.fn = |t| • N) (hp : Φpp.fn = 1)
+    (pos0 mom0 pos' mom' mu : Vec K n)
+    (h1 : pos'.fn = pos0.fn - Φqp.fn *ᵥ mu.fn)
+    (h2 : mom'.fn = mom0.fn - sgn t • (Φpp.fn *ᵥ mu.fn)) :
+    pos'.fn - pos0.fn = t • (N *ᵥ (mom'.fn - mom0.fn)) := by
+  have hs : t * sgn t = |t| := by
+    unfold sgn
+    rcases lt_trichotomy 0 t with h | h | h
+    · simp [h, abs_of_pos h]
+    · subst h; simp
+    · simp [h, not_lt.mpr (le_of_lt h), abs_of_neg h]
+  rw [h1, h2, hq, hp, Matrix.one_mulVec]
+  have e1 : pos0.fn - (|t| • N) *ᵥ mu.fn - pos0.fn = -(|t| • (N *ᵥ mu.fn)) := by
+    rw [Matrix.smul_mulVec]; abel
+  have e2 : mom0.fn - sgn t • mu.fn - mom0.fn = -(sgn t • mu.fn) := by abel
+  rw [e1, e2, Matrix.mulVec_neg, Matrix.mulVec_smul, smul_neg, smul_smul, hs]
+
+/-! ### the integrator step -/
+
+/-- the inverse oracle returns true (right) inverses — `gram(state).inv` -/
+def InvCorrect (O : Oracles K n c) : Prop := ∀ A X, O.inv A = .ok X → A.fn * X.fn = 1
+
+/-- the constraint residual at `pos` is below the solver tolerance -/
+def OnManifold (O : Oracles K n c) (T : Tol K) (pos : Vec K n) : Prop :=
+  ∃ cv, O.constr pos = .ok cv ∧ O.normC cv < T.ctol
+
+/-- `mom` is in the cotangent space at `pos`: `J(pos) M⁻¹ mom = 0` exactly -/
+def InCotangent (S : StepSys K n c) (pos mom : Vec K n) : Prop :=
+  ∃ J, S.jacob pos = .ok J ∧ J.fn *ᵥ (S.N.fn *ᵥ mom.fn) = 0
+
+/-- `project_onto_cotangent_space`: the result is in the cotangent space and differs from the
+input by a combination of constraint normals. -/
+theorem projectCot_post (S : StepSys K n c) (hinv : InvCorrect S.toOracles) (pos mom mom' : Vec K n)
+    (h : projectCot S pos mom = .ok mom') :
+    InCotangent S pos mom' ∧ ∃ J lam, S.jacob pos = .ok J ∧ mom'.fn - mom.fn = J.fnᵀ *ᵥ lam := by
+  unfold projectCot at h
+  cases hj : S.jacob pos with
+  | error e => simp [hj] at h
+  | ok J =>
+  cases hi : S.inv (innerProduct J S.N J) with
+  | error e => simp [hj, hi] at h
+  | ok Ginv =>
+    simp only [hj, hi, Except.ok.injEq] at h
+    subst h
+    have hG : J.fn * S.N.fn * J.fnᵀ * Ginv.fn = 1 := by
+      have := hinv _ _ hi
+      simpa [innerProduct, Matrix.mul_assoc] using this
+    refine ⟨⟨J, hj, ?_⟩, J, ?_⟩
+    · rw [fn_vec]; exact project_cotangent _ _ _ hG _
+    · obtain ⟨lam, hl⟩ := project_lagrange J.fn S.N.fn Ginv.fn mom.fn
+      exact ⟨lam, rfl, by rw [fn_vec]; exact hl⟩
+
+private theorem stepA_post (S : StepSys K n c) (hinv : InvCorrect S.toOracles) (dt : K)
+    (pos mom pos' mom' : Vec K n) (h : stepA S dt pos mom = .ok (pos', mom')) :
+    pos' = pos ∧ InCotangent S pos' mom' := by
+  unfold stepA at h
+  cases hg : S.dh1 pos with
+  | error e => simp [hg] at h
+  | ok g =>
+  cases hp : projectCot S pos (vec (mom.fn - dt • g.fn)) with
+  | error e => simp [hg, hp] at h
+  | ok m =>
+    simp only [hg, hp, Except.ok.injEq, Prod.mk.injEq] at h
+    obtain ⟨rfl, rfl⟩ := h
+    exact ⟨rfl, (projectCot_post S hinv _ _ _ hp).1⟩
+
+private theorem retract_post (S : StepSys K n c) (C : StepCfg K) (dt : K) (pos mom pos' mom' : Vec K n)
+    (h : retract S C dt pos mom = .ok (pos', mom')) : OnManifold S.toOracles C.tol pos' := by
+  unfold retract at h
+  cases hf : S.h2flow dt (pos, mom) with
+  | error e => simp [hf] at h
+  | ok r =>
+    obtain ⟨pos1, mom1⟩ := r
+    simp only [hf] at h
+    cases hs : solve C.kind S.toOracles C.tol C.maxIters C.maxLs dt pos1 mom1 pos with
+    | ok p2 m2 mu i =>
+      simp only [hs, Except.ok.injEq, Prod.mk.injEq] at h
+      obtain ⟨rfl, rfl⟩ := h
+      exact (solve_post _ _ _ _ _ _ _ _ _ _ _ _ _ hs).1.converged
+    | convergenceError r i p => simp [hs] at h
+    | unboundLocal => simp [hs] at h
+
+private theorem stepBLoop_post (S : StepSys K n c) (hinv : InvCorrect S.toOracles) (C : StepCfg K) (dt : K)
+    (pos' mom' : Vec K n) :
+    ∀ (k : Nat) (pos mom : Vec K n), stepBLoop S C dt k pos mom = .ok (pos', mom') →
+      (k = 0 ∧ pos' = pos ∧ mom' = mom) ∨
+        (OnManifold S.toOracles C.tol pos' ∧ InCotangent S pos' mom') := by
+  intro k
+  induction k with
+  | zero =>
+    intro pos mom h
+    simp only [stepBLoop, Except.ok.injEq, Prod.mk.injEq] at h
+    exact Or.inl ⟨rfl, h.1.symm, h.2.symm⟩
+  | succ k ih =>
+    intro pos mom h
+    right
+    unfold stepBLoop at h
+    cases hr : retract S C dt pos mom with
+    | error e => simp [hr] at h
+    | ok r =>
+    obtain ⟨pos1, mom1⟩ := r
+    simp only [hr] at h
+    cases hd : (if k = 0 then (S.dh1 pos1).map (fun _ => ()) else Except.ok ()) with
+    | error e => simp [hd] at h
+    | ok u =>
+    simp only [hd] at h
+    cases hp : projectCot S pos1 mom1 with
+    | error e => simp [hp] at h
+    | ok mom2 =>
+    simp only [hp] at h
+    cases hb : retract S C (-dt) pos1 mom2 with
+    | error e => simp [hb] at h
+    | ok rb =>
+    obtain ⟨posBack, momBack⟩ := rb
+    simp only [hb] at h
+    split_ifs at h with hrev
+    rcases ih _ _ h with ⟨_, rfl, rfl⟩ | h'
+    · exact ⟨retract_post S C dt _ _ _ _ hr, (projectCot_post S hinv _ _ _ hp).1⟩
+    · exact h'
+
+/-- **Constrained leapfrog step.** Whatever the start state, user functions and solver, a step
+that returns ends on the manifold to solver tolerance (for `n_inner_step ≥ 1`) and with the
+momentum *exactly* in the cotangent space there. -/
+theorem constrained_step_post (S : StepSys K n c) (hinv : InvCorrect S.toOracles) (C : StepCfg K)
+    (nInner : Nat) (hn : 0 < nInner) (t : K) (pos mom pos' mom' : Vec K n)
+    (h : step S C nInner t pos mom = .ok pos' mom') :
+    OnManifold S.toOracles C.tol pos' ∧ InCotangent S pos' mom' := by
+  unfold step at h
+  cases ha : stepA S (t * (1 / 2)) pos mom with
+  | error e => simp only [ha] at h; cases h
+  | ok r1 =>
+  obtain ⟨pos1, mom1⟩ := r1
+  simp only [ha] at h
+  cases hb : stepBLoop S C (t / (nInner : K)) nInner pos1 mom1 with
+  | error e => simp only [hb] at h; cases h
+  | ok r2 =>
+  obtain ⟨pos2, mom2⟩ := r2
+  simp only [hb] at h
+  cases hc : stepA S (t * (1 / 2)) pos2 mom2 with
+  | error e => simp only [hc] at h; cases h
+  | ok r3 =>
+    obtain ⟨pos3, mom3⟩ := r3
+    simp only [hc, StepOutcome.ok.injEq] at h
+    obtain ⟨rfl, rfl⟩ := h
+    obtain ⟨rfl, hcot⟩ := stepA_post S hinv _ _ _ _ _ hc
+    refine ⟨?_, hcot⟩
+    rcases stepBLoop_post S hinv C _ _ _ _ _ _ hb with ⟨h0, _⟩ | ⟨hm, _⟩
+    · omega
+    · exact hm
 
 end Solvers
 
